@@ -39,7 +39,7 @@ def gen_wrapper_source(o, cfg, shard, carve, twin):
     lines.append(f"import {o.module} as _h")
     for k, v in shard.items():
         lines.append(f"{k} = {v!r}")
-    lines.append(f"def w({', '.join(params)}):")
+    lines.append(f"def obligation_({', '.join(params)}):")
     lines.append('    """')
     for pr in o.pre:
         lines.append("    pre: " + pr.format(**K))
@@ -150,13 +150,13 @@ def main():
             src_main = gen_wrapper_source(o, cfg, shard, carve, twin=False)
             out["wrapper"] = src_main
             mt = load_generated(src_twin, tag + "_t")
-            twin = run_crosshair(mt.w, min(cfg.get("twin_timeout", 120), cfg["timeout"]))
+            twin = run_crosshair(mt.obligation_, min(cfg.get("twin_timeout", 120), cfg["timeout"]))
             out["twin"] = {k: twin[k] for k in ("verdict", "cex", "wall_s", "paths", "z3_queries", "z3_s")}
             if twin["verdict"] == "POST_FAIL" and twin["cex"] is not None:
                 out["functions_executed"] = trace_functions(o, shard, twin["cex"])
             if twin["verdict"] == "POST_FAIL":
                 mm = load_generated(src_main, tag + "_m")
-                out.update(run_crosshair(mm.w, cfg["timeout"]))
+                out.update(run_crosshair(mm.obligation_, cfg["timeout"]))
             else:
                 out.update({"verdict": "VACUOUS", "message": "reachability twin not refuted: " + twin["verdict"] + " " + twin["message"][:500],
                             "traceback": twin.get("traceback", ""), "cex": None, "wall_s": twin["wall_s"], "paths": twin["paths"],
